@@ -532,10 +532,8 @@ func NewCall(pos *Position, fun Expression, args []Expression, isVariadic bool) 
 func (n *Call) String() string {
 	s := n.Func.String()
 	switch fn := n.Func.(type) {
-	case *UnaryOperator:
-		if fn.Op == OperatorPointer || fn.Op == OperatorReceive {
-			s = "(" + s + ")"
-		}
+	case *UnaryOperator, *BinaryOperator:
+		s = "(" + s + ")"
 	case *FuncType:
 		if len(fn.Result) == 0 {
 			s = "(" + s + ")"
@@ -1001,7 +999,18 @@ func NewIndex(pos *Position, expr Expression, index Expression) *Index {
 
 // String returns the string representation of n.
 func (n *Index) String() string {
-	return n.Expr.String() + "[" + n.Index.String() + "]"
+	return operandString(n.Expr) + "[" + n.Index.String() + "]"
+}
+
+// operandString returns the string of the operand of an index, slice,
+// selector or type assertion expression: an operand that is a unary or binary
+// operation is put in parentheses, because "-a[0]" is not "(-a)[0]".
+func operandString(expr Expression) string {
+	switch expr.(type) {
+	case *UnaryOperator, *BinaryOperator:
+		return "(" + expr.String() + ")"
+	}
+	return expr.String()
 }
 
 // Interface node represents an interface type.
@@ -1308,7 +1317,7 @@ func NewSlicing(pos *Position, expr, low, high Expression, max Expression, isFul
 
 // String returns the string representation of n.
 func (n *Slicing) String() string {
-	s := n.Expr.String() + "["
+	s := operandString(n.Expr) + "["
 	if n.Low != nil {
 		s += n.Low.String()
 	}
@@ -1434,10 +1443,14 @@ func NewTypeAssertion(pos *Position, expr Expression, typ Expression) *TypeAsser
 
 // String returns the string representation of n.
 func (n *TypeAssertion) String() string {
-	if n.Type == nil {
-		return n.Expr.String() + ".(type)"
+	expr := operandString(n.Expr)
+	if lit, ok := n.Expr.(*BasicLiteral); ok && lit.Type != StringLiteral && lit.Type != RuneLiteral {
+		expr = "(" + expr + ")"
 	}
-	return n.Expr.String() + ".(" + n.Type.String() + ")"
+	if n.Type == nil {
+		return expr + ".(type)"
+	}
+	return expr + ".(" + n.Type.String() + ")"
 }
 
 // TypeDeclaration node represents a type declaration, that is an alias
